@@ -64,8 +64,7 @@ Proof. vm_compute. split; [reflexivity|discriminate]. Qed.
     decoder specification written from doc/xz-file-format.txt.  The
     specification accepts every such Stream, consumes exactly its bytes and
     returns the concatenated Block contents - so all the metadata the model
-    encoder writes is truthful.  Checks None, CRC32 and CRC64 (the length of a
-    SHA-256 value is not proved yet).  That the real encoder writes exactly
+    encoder writes is truthful.  Checks None, CRC32, CRC64 and SHA-256.  That the real encoder writes exactly
     these bytes is checked per run (xzsyms). *)
 From XZ Require Import Lzma Lzma2 LzmaEnc LzmaRun Lzma2Enc XzEnc.
 Theorem xz_stream_is_valid_and_lossless :
